@@ -627,6 +627,179 @@ theorem shufflingOf_mem {st : State} {e : Nat} {s : ShufflingEpoch} (h : shuffli
   · cases h
   · exact shufflingOfParts_mem h
 
+/-! ### the context's answers are the answers of C07's specification functions -/
+
+/-- the registry as `Committees.Spec` sees it -/
+def valsC (st : State) : List Committees.Val := st.validators.map valC
+/-- the randao mixes as `Committees.Spec` sees them -/
+def mixesC (st : State) : Nat → ByteArray := fun i => st.randao_mixes.getD i ByteArray.empty
+
+theorem active_eq_C07 (st : State) (e : Nat) :
+    get_active_validator_indices st e = Committees.Spec.get_active_validator_indices (valsC st) e := by
+  unfold Committees.Spec.get_active_validator_indices
+  have := Zrnt.Proofs.Committees.zipIdx_filterMap (fun v => Committees.Spec.is_active_validator v e) (valsC st) 0
+  simp only [Nat.sub_zero] at this
+  rw [show (fun (x : Committees.Val × Nat) => match x with
+        | (v, i) => if Committees.Spec.is_active_validator v e = true then some i else none) =
+      (fun (x : Committees.Val × Nat) => if Committees.Spec.is_active_validator x.1 e = true then some x.2 else none) from by
+    funext x; cases x; rfl]
+  rw [this, get_active_eq, ← List.range_eq_range']
+  have hl : (valsC st).length = st.validators.length := by simp [valsC]
+  rw [hl]
+  apply List.filter_congr
+  intro i hi
+  rw [List.mem_range] at hi
+  unfold actPred
+  rw [List.getElem?_eq_getElem hi]
+  have : (valsC st)[i]! = valC st.validators[i] := by
+    simp [valsC, hi]
+  rw [this]
+  simp only [is_active_validator, Committees.Spec.is_active_validator, valC]
+  by_cases ha : st.validators[i].activation_epoch ≤ e <;> by_cases hb : e < st.validators[i].exit_epoch <;> simp [ha, hb]
+
+theorem uintToBytes_eq (n v : Nat) : Spec.uintToBytes n v = Zrnt.Shuffle.Spec.uintToBytes n v := by
+  unfold Spec.uintToBytes Zrnt.Shuffle.Spec.uintToBytes
+  congr 1
+  simp [Array.range]
+
+theorem seed_eq_C07 {st : State} {e : Nat} {d x : Bytes} (h : get_seed cfg st e d = .ok x) :
+    x = Committees.Spec.get_seed Spec.hash (cfgC cfg) (mixesC st) e d := by
+  unfold get_seed get_randao_mix idx at h
+  simp only [bind, Except.bind, u64, pure, Except.pure] at h
+  by_cases h1 : e + cfg.EPOCHS_PER_HISTORICAL_VECTOR < 2 ^ 64
+  · simp only [h1, if_true] at h
+    by_cases h2 : e + cfg.EPOCHS_PER_HISTORICAL_VECTOR < cfg.MIN_SEED_LOOKAHEAD + 1
+    · simp only [h2, if_true] at h
+      cases h
+    · simp only [h2, if_false] at h
+      by_cases h3 : cfg.EPOCHS_PER_HISTORICAL_VECTOR = 0
+      · simp only [h3, if_true] at h
+        cases h
+      · simp only [h3, if_false] at h
+        cases hm : st.randao_mixes[(e + cfg.EPOCHS_PER_HISTORICAL_VECTOR - cfg.MIN_SEED_LOOKAHEAD - 1) % cfg.EPOCHS_PER_HISTORICAL_VECTOR]? with
+        | none => rw [hm] at h; cases h
+        | some mix =>
+          rw [hm] at h
+          cases h
+          unfold Committees.Spec.get_seed Committees.Spec.get_randao_mix mixesC
+          simp [cfgC, uintToBytes_eq, List.getD, hm]
+  · simp only [h1, if_false] at h
+    cases h
+
+theorem smMapM_ok_getElem {α β : Type} (f : α → SM β) :
+    ∀ (l : List α) (r : List β), l.mapM f = .ok r →
+      r.length = l.length ∧ ∀ i (hi : i < l.length) (hr : i < r.length), f l[i] = .ok r[i] := by
+  intro l
+  induction l with
+  | nil =>
+    intro r h
+    simp [pure, Except.pure] at h
+    subst h
+    exact ⟨rfl, fun i hi => absurd hi (by simp)⟩
+  | cons a l ih =>
+    intro r h
+    simp only [List.mapM_cons, bind, Except.bind, pure, Except.pure] at h
+    cases hfa : f a with
+    | error e => simp [hfa] at h
+    | ok b =>
+      simp only [hfa] at h
+      cases hl : l.mapM f with
+      | error e => simp [hl] at h
+      | ok r' =>
+        rw [hl] at h
+        cases h
+        obtain ⟨hlen, hget⟩ := ih r' hl
+        refine ⟨by simp [hlen], fun i hi hr => ?_⟩
+        cases i with
+        | zero => simpa using hfa
+        | succ i => simpa using hget i (by simpa using hi) (by simpa using hr)
+
+/-- **The committees a context holds are the specification's `get_beacon_committee`** (the literal function of
+`Committees.Spec`, C07's oracle) of the state's registry and randao mixes. -/
+theorem shufflingOf_committee_eq_spec {st : State} {e : Nat} {sh : ShufflingEpoch} (hspe : 0 < cfg.SLOTS_PER_EPOCH)
+    (h : shufflingOf cfg st e = .ok sh) (s index : Nat) (hs : s < cfg.SLOTS_PER_EPOCH)
+    (hi : index < Committees.Spec.get_committee_count_per_slot (cfgC cfg) (valsC st) e) :
+    ∃ committee, sh.committees[s]?.bind (·[index]?) = some committee ∧
+      Committees.Spec.get_beacon_committee Spec.hash (cfgC cfg) (valsC st) (mixesC st) (e * cfg.SLOTS_PER_EPOCH + s) index =
+        .ok committee := by
+  unfold shufflingOf at h
+  simp only [bind, Except.bind] at h
+  split at h
+  · cases h
+  · rename_i seed hseed
+    have hseedC := seed_eq_C07 hseed
+    unfold shufflingOfParts at h
+    simp only [bind, Except.bind, pure, Except.pure] at h
+    split at h
+    · cases h
+    · split at h
+      · cases h
+      · rename_i cs hcs
+        cases h
+        simp only
+        have hcps : committeesPerSlot cfg (get_active_validator_indices st e).length =
+            Committees.Spec.get_committee_count_per_slot (cfgC cfg) (valsC st) e := by
+          unfold committeesPerSlot Committees.Spec.get_committee_count_per_slot
+          rw [active_eq_C07]; rfl
+        rw [hcps] at hcs
+        obtain ⟨hlen, hget⟩ := smMapM_ok_getElem _ _ _ hcs
+        simp only [List.length_range] at hlen hget
+        have hs' : s < cs.length := by omega
+        have hrow := hget s hs hs'
+        simp only [List.getElem_range] at hrow
+        obtain ⟨hlen2, hget2⟩ := smMapM_ok_getElem _ _ _ hrow
+        simp only [List.length_range] at hlen2 hget2
+        have hi' : index < cs[s].length := by omega
+        have hcell := hget2 index hi hi'
+        simp only [List.getElem_range] at hcell
+        refine ⟨cs[s][index], by simp [List.getElem?_eq_getElem hs', List.getElem?_eq_getElem hi'], ?_⟩
+        have hcell' := liftRes_ok hcell
+        unfold Committees.Spec.get_beacon_committee
+        have e1 : (e * cfg.SLOTS_PER_EPOCH + s) / (cfgC cfg).SLOTS_PER_EPOCH = e := by
+          show (e * cfg.SLOTS_PER_EPOCH + s) / cfg.SLOTS_PER_EPOCH = e
+          rw [Nat.mul_comm, Nat.mul_add_div hspe, Nat.div_eq_of_lt hs, Nat.add_zero]
+        have e2 : (e * cfg.SLOTS_PER_EPOCH + s) % (cfgC cfg).SLOTS_PER_EPOCH = s := by
+          show (e * cfg.SLOTS_PER_EPOCH + s) % cfg.SLOTS_PER_EPOCH = s
+          rw [Nat.mul_comm, Nat.mul_add_mod, Nat.mod_eq_of_lt hs]
+        simp only [e1, e2]
+        rw [← active_eq_C07, show Committees.DOMAIN_BEACON_ATTESTER = DOMAIN_BEACON_ATTESTER from rfl, ← hseedC]
+        exact hcell'
+
+/-- **The proposers a context holds are the specification's `get_beacon_proposer_index`** of each slot of the epoch
+(the literal function of `Committees.Spec`, its `while True` allowed the 32 000 iterations zrnt tries). -/
+theorem proposersOf_eq_spec {st : State} {e : Nat} {p : Proposers} (hspe : 0 < cfg.SLOTS_PER_EPOCH)
+    (h : proposersOf cfg st e (get_active_validator_indices st e) = .ok p) (s : Nat) (hs : s < cfg.SLOTS_PER_EPOCH) :
+    ∃ r, p.proposers[s]? = some r ∧
+      Committees.Spec.get_beacon_proposer_index Spec.hash (cfgC cfg) (valsC st) (mixesC st) (e * cfg.SLOTS_PER_EPOCH + s) 32000 =
+        .ok r := by
+  unfold proposersOf at h
+  simp only [bind, Except.bind, pure, Except.pure] at h
+  split at h
+  · cases h
+  · rename_i seed hseed
+    have hseedC := seed_eq_C07 hseed
+    split at h
+    · cases h
+    · rename_i ps hps
+      cases h
+      simp only
+      obtain ⟨hlen, hget⟩ := smMapM_ok_getElem _ _ _ hps
+      simp only [List.length_range] at hlen hget
+      have hs' : s < ps.length := by omega
+      have hcell := hget s hs hs'
+      simp only [List.getElem_range] at hcell
+      refine ⟨ps[s], List.getElem?_eq_getElem hs', ?_⟩
+      have hcell' := liftRes_ok hcell
+      unfold Committees.Spec.get_beacon_proposer_index
+      have e1 : (e * cfg.SLOTS_PER_EPOCH + s) / (cfgC cfg).SLOTS_PER_EPOCH = e := by
+        show (e * cfg.SLOTS_PER_EPOCH + s) / cfg.SLOTS_PER_EPOCH = e
+        rw [Nat.mul_comm, Nat.mul_add_div hspe, Nat.div_eq_of_lt hs, Nat.add_zero]
+      simp only [e1]
+      rw [← active_eq_C07, show Committees.DOMAIN_BEACON_PROPOSER = DOMAIN_BEACON_PROPOSER from rfl, ← hseedC,
+        ← uintToBytes_eq]
+      unfold compute_start_slot_at_epoch at hcell'
+      exact hcell'
+
 /-! ### soundness of the executable step checks -/
 
 theorem fieldWriteB_sound {cfg : Config} {N old new : Nat} (h : fieldWriteB cfg N old new = true) :
